@@ -207,6 +207,9 @@ class Analyzer:
 def mk_field(v, name, an=None):
     while True:
         t = v[0]
+        if t == 'typed':
+            v = v[2]
+            continue
         if t == 'bin' and v[1].endswith('WithOverflow'):
             if name == '0':
                 return ('bin', v[1][:-len('WithOverflow')], v[2], v[3])
@@ -250,6 +253,9 @@ def mk_field(v, name, an=None):
 def mk_index(v, idx, an=None):
     while True:
         t = v[0]
+        if t == 'typed':
+            v = v[2]
+            continue
         if t == 'updidx':
             if v[2] == idx:
                 return v[3]
@@ -848,11 +854,15 @@ def paths_of(e, limit=4096):
     return out
 
 
-def norm(e):
-    """comparison form: call-site ids, shared-reference wrappers and `after` sites removed"""
+def norm(e, keep_typed=False):
+    """comparison form: call-site ids, shared-reference wrappers, type annotations and `after` sites removed"""
     if not isinstance(e, tuple) or not e:
         return e
     t = e[0]
+    if keep_typed:
+        return _norm_typed(e)
+    if t == 'typed':
+        return norm(e[2])
     if t == 'constref':
         return norm(e[1])
     if t == 'mem' and e[1][0] == 'h' and e[1][1][0] == 'str':
@@ -862,6 +872,21 @@ def norm(e):
     if t == 'after':
         return ('after', None, e[2], norm(e[3]), tuple(norm(a) for a in e[4]), e[5])
     return tuple(norm(x) for x in e)
+
+
+def _norm_typed(e):
+    if not isinstance(e, tuple) or not e:
+        return e
+    t = e[0]
+    if t == 'constref':
+        return _norm_typed(e[1])
+    if t == 'mem' and e[1][0] == 'h' and e[1][1][0] == 'str':
+        return e[1][1]
+    if t == 'call':
+        return ('call', e[1], tuple(_norm_typed(a) for a in e[2]), e[3])
+    if t == 'after':
+        return ('after', None, e[2], _norm_typed(e[3]), tuple(_norm_typed(a) for a in e[4]), e[5])
+    return tuple(_norm_typed(x) for x in e)
 
 
 def strip_sites(e):
@@ -939,6 +964,8 @@ def show(e, depth=0):
     if t == 'var':
         r = e[3]
         return 'var@bb%s(%s)' % (e[2], ('_%d' % r[1]) if r[0] == 'l' else str(r))
+    if t == 'typed':
+        return show(e[2])
     if t == 'constref':
         return '&const(%s)' % show(e[1])
     if t == 'constdef':
